@@ -94,8 +94,13 @@ def _code(p, sh, level):
     c += [p.item("tag", str(3 + level)), p.item("JUMPDEST"), p.item("PUSH", "0"), p.item("PUSH", "A0"), p.item("DUP1")]
     if sh["pk"] in ("PUSHLIB", "all"):
         c += [p.item("PUSHLIB", "lib/B.sol:B")]           # first library of this block, second of the document
-    c += [_jump(p, sh, "JUMPI", ""), p.item("tag", "12"), p.item("JUMPDEST"), p.item("PUSH", "1"), p.item("SWAP1", **md),
-          _jump(p, sh, "JUMP", "[out]")]
+    c += [_jump(p, sh, "JUMPI", ""), p.item("tag", "12"), p.item("JUMPDEST"), p.item("PUSH", "1")]
+    if sh["pk"] in ("PUSHLIB", "all"):
+        # a block that falls through (no terminator) into a tag-opened block naming another library: the per-block
+        # numbering of libraries starts again at the tag
+        c += [p.item("PUSHLIB", "lib/A.sol:A"), p.item("POP"), p.item("tag", "13"), p.item("JUMPDEST"),
+              p.item("PUSHLIB", "lib/B.sol:B"), p.item("POP")]
+    c += [p.item("SWAP1", **md), _jump(p, sh, "JUMP", "[out]")]
     if level == 0:
         c += [p.item("PUSH", "0"), p.item("DUP1"), p.item("RETURN")]
     else:
